@@ -73,9 +73,12 @@ def mutate(pk, rng, how):
         man = list(pk['manifest'] or []); rng.shuffle(man)
         return L.repack(pk, manifest=man, order=rng.sample(pk['order'], len(pk['order'])))
     if how == 'extra-members':
-        man = list(pk['manifest'] or []) + [('Extra/', ''), ('Extra/data.bin', 'application/octet-stream'), ('Configurations2/verif.xml', 'text/xml'), ('META-INF/documentsignatures.xml', 'text/xml')]
+        # (only the document signatures may go: a rewrite invalidates them; everything else under META-INF is a file like any other)
+        man = list(pk['manifest'] or []) + [('Extra/', ''), ('Extra/data.bin', 'application/octet-stream'), ('Configurations2/verif.xml', 'text/xml'), ('META-INF/documentsignatures.xml', 'text/xml'),
+                                            ('META-INF/macrosignatures.xml', 'text/xml'), ('META-INF/verif-notes.txt', 'text/plain'), ('Extra/empty.bin', 'application/octet-stream'), ('mimetype.bak', 'text/plain')]
         return L.repack(pk, members={'Extra/data.bin': bytes(rng.randrange(256) for _ in range(50)), 'Configurations2/verif.xml': b'<a xmlns="urn:x"/>',
-                                     'META-INF/documentsignatures.xml': b'<s xmlns="urn:sig"/>'}, manifest=man)
+                                     'META-INF/documentsignatures.xml': b'<s xmlns="urn:sig"/>', 'META-INF/macrosignatures.xml': b'<m xmlns="urn:sig"/>',
+                                     'META-INF/verif-notes.txt': b'notes', 'Extra/empty.bin': b'', 'mimetype.bak': b'x'}, manifest=man)
     if how == 'renumber-objects':
         folders = [f for f in L.folders_of(pk) if f]
         if not folders: return None
@@ -116,6 +119,24 @@ def synthetic(rng, g):
                ('meta.xml', L.serialise(m, std), 'text/xml'), ('settings.xml', L.serialise(st, std), 'text/xml'),
                ('Pictures/p1.png', bytes(rng.randrange(256) for _ in range(30)), 'image/png')]
     return P.make_package(members, mimetype=doc.mimetype)
+
+def directed_packages():
+    """hand-written packages for what office suites do and the samples do not show: the two parts number their automatic list
+    styles, data styles and page layouts independently, so content.xml and styles.xml each have an L1 / N1 of their own"""
+    bullet = '<text:list-style style:name="L1"><text:list-level-style-bullet text:level="1" text:bullet-char="\u2022"/></text:list-style>'
+    number = '<text:list-style style:name="L1"><text:list-level-style-number text:level="1" style:num-format="1"/></text:list-style>'
+    year = '<number:date-style style:name="N1"><number:year/></number:date-style>'
+    dmy = '<number:date-style style:name="N1"><number:day/><number:text>.</number:text><number:month/></number:date-style>'
+    lst = '<text:list text:style-name="L1"><text:list-item><text:p>%s</text:p></text:list-item></text:list>'
+    dat = '<text:p><text:date style:data-style-name="N1" text:date-value="2024-05-17">%s</text:date></text:p>'
+    out = []
+    for label, cauto, sauto in (('same names, different definitions', bullet + year, number + dmy), ('same names, same definitions', bullet + year, bullet + year),
+                                ('same list style name only', bullet, number + dmy)):
+        master = ('<style:master-page style:name="Standard" style:page-layout-name="pm1"><style:header>%s%s</style:header></style:master-page>' % (lst % 'in the header', dat % '17.5.'))
+        data = P.simple_package((lst % 'in the body') + ((dat % '2024') if 'N1' in cauto else ''), autostyles=cauto,
+                                styles_auto='<style:page-layout style:name="pm1"/>' + sauto, masterstyles=master)
+        out.append((label, data))
+    return out
 
 def run_one(ctx, d, refattrs, data, case):
     from odf.opendocument import load
@@ -170,6 +191,8 @@ def run(ctx):
             md = mutate(pk, ctx.rng, how)
             if md is None: ctx.bump('mutation-not-applicable'); continue
             run_one(ctx, d, refattrs, md, {'source': name, 'mutation': how})
+    for label, data in directed_packages():
+        run_one(ctx, d, refattrs, data, {'source': 'directed: ' + label, 'mutation': 'directed'})
     g = schemagen.Gen(ctx.rng, twin['GenGrammar.v'])
     for i in range(15 if ctx.quick else 400):
         data = synthetic(ctx.rng, g)
